@@ -31,8 +31,13 @@ def batched(ctx, total, make_case, judge=None, batch=100, use_model=True):
         for _ in range(n):
             try:
                 cases.append(make_case())
-            except Exception:  # the implementation misbehaved in a way the harness did not expect
+            except Exception as exc:  # the implementation misbehaved in a way the harness did not expect
                 import traceback
+                import prov as _prov
+                import os as _os
+                lib = _os.path.dirname(_os.path.abspath(_prov.__file__))
+                if not any(_os.path.abspath(fr.filename).startswith(lib) for fr in traceback.extract_tb(exc.__traceback__)):
+                    raise       # no frame of the library involved: a defect of the harness itself (exit 2), not a violation
                 tb = traceback.format_exc()
                 fails.append(Failure("oracle", None, "unexpected exception while exercising the implementation: " + tb[-700:],
                                      {"traceback": tb, "seed": ctx.seed, "case_index": done + len(cases)}))
